@@ -131,8 +131,10 @@ def run(index, rep, tier):
                     if isinstance(t, ast.Name) and t.id == "num_children":
                         pass
                 cp = compare_parts(iff.test.values[0]) if isinstance(iff.test, ast.BoolOp) else compare_parts(iff.test)
-                if single is None and cp and cp[1] == "Eq" and const_value(cp[2]) == 1 and isinstance(cp[0], ast.Name) and cp[0].id == "num_children":
-                    single = "num_children"
+                if single is None and cp and cp[1] == "Eq" and const_value(cp[2]) == 1 and isinstance(cp[0], ast.Name):
+                    lend = [n for n in walk_no_nested(fi.node) if isinstance(n, ast.Assign) and norm(n.targets[0]) == cp[0].id and isinstance(n.value, ast.Call) and call_name(n.value) == "len"]
+                    if lend:
+                        single = cp[0].id
                 if single is None:
                     continue
                 body_calls = {call_name(c) for s in iff.body for c in calls_in(s)}
